@@ -213,7 +213,7 @@ Definition digest_pe (f : bytes) : result dg :=
   let n := pe_pad_rem orig in
   let pad := if pe_pad_needed n then pe_pad_len n else 0 in
   Ok (mkDg orig (if pe_certstart_padded then orig + pad else orig) (hv_posdd hv) (hv_certsize hv)
-           (hdr ++ gapbytes ++ snd hs ++ snd tr ++ zeros pad)).
+           (hdr ++ gapbytes ++ snd hs ++ snd tr ++ (if pe_hashes_padding then zeros pad else []))).
 
 (* ------------------------------------------------------------------ MakePatch *)
 Definition cert_table (d : dg) (sig : bytes) : bytes :=
